@@ -553,8 +553,12 @@ def check_c19(case, stats=None):
             if not ok:
                 continue
             lo = min(i, b) - 1
-            if W.state_at(m, lo) != "R" or W.left_active_between(m, lo, e) or _was_paused_between(W, m, lo - 1, e + 1) or W.state_at(m, e) != "R":
+            # a subscriber paused and resumed in between keeps its mail (ordinary delivery rules): still required, as long
+            # as it is RUNNING again when the run ends (the final flush hands over what is left)
+            if W.state_at(m, lo) != "R" or W.left_active_between(m, lo, e) or W.state_at(m, e) != "R":
                 continue
+            if _was_paused_between(W, m, lo - 1, e + 1) and stats is not None:
+                stats["required_for_paused_and_resumed_subscriber"] = stats.get("required_for_paused_and_resumed_subscriber", 0) + 1
             key = (m, topic, x if kind in ("started", "stopped") else -1)
             required[key] = required.get(key, 0) + 1
             witness.setdefault(key, (i, kind, x))
